@@ -75,7 +75,7 @@ class RandomBehaviour:
                 eid0 = sorted(k_ for k_ in data if k_ != "time")[:1]
                 for e_ in eid0:
                     data[e_]["zz"] = tok(p.sid, p.k, "zz", e_)
-                data["E9"] = {"p": tok(p.sid, p.k, "p", "E9"), "e": tok(p.sid, p.k, "e", "E9")}
+                data["E9" + (ctx.scn.get("eid_suffix") or "")] = {"p": tok(p.sid, p.k, "p", "E9"), "e": tok(p.sid, p.k, "e", "E9")}
         return Reply(data)
 
 
